@@ -13,7 +13,7 @@ from vlib import props as P  # noqa: E402
 ALL = ["C%02d" % i for i in range(1, 18)]
 
 DESC = {
-    "C01": dict(engine="seqmodel", technique="reference-model monitor (byte-string map) over generated histories, ASan+UBSan+LSan, library assertions on",
+    "C01": dict(engine="seqmodel", technique="reference-model monitor (byte-string map) over generated histories, ASan+UBSan+LSan, library assertions on; valgrind memcheck (uninitialised-value use) on a sample",
                 ref="DESIGN.md 3/C01",
                 text="Every call of generated single-threaded histories on db, mutex_db and olc_db (u64 and byte-string keys) is compared with a std::map reference; held value views are re-read after every later operation under ASan. Held on the histories explored, which are measured to cover every node-class transition.",
                 note="Trusts std::map, the harness's key-universe generator (prefix-free, inside the D4-free domain) and gcc's sanitizer runtimes."),
@@ -25,11 +25,11 @@ DESC = {
                 ref="DESIGN.md 2.1, 3/C03",
                 text="Real threads run real olc_db operations while a token scheduler interleaves them at every lock-word/field/QSBR access; every execution's call/return history is checked for linearizability per key. Depth-1 preemption sweeps of small programs are exhaustive, deeper schedules sampled.",
                 note="Sequentially consistent interleavings on x86-TSO; trusts the checker (small, memoised search) and the hook placement."),
-    "C04": dict(engine="olc_conc", technique="ASan on every access + hold-set monitor on free notifications + allocation/reachability conservation at quiescent points, under the serialized scheduler",
+    "C04": dict(engine="olc_conc", technique="ASan on every access + hold-set monitor on free notifications + allocation/reachability conservation at quiescent points, under the serialized scheduler; valgrind memcheck (addressability) on the release code path; free-running TSan/ASan stress",
                 ref="DESIGN.md 3/C04",
                 text="Readers keep value views until their own quiescent state and re-read them; the free hook checks no other thread holds an address inside the block; after each execution live blocks must equal the nodes reachable per dump().",
                 note="ASan cannot see reads of recycled memory; the hold-set monitor covers exactly the API-level promise (value bytes)."),
-    "C05": dict(engine="qsbr_conc", technique="trace-rule monitor (grace-period rule on free notifications) + reference oracle under ASan, serialized scheduler with state-aware action selection",
+    "C05": dict(engine="qsbr_conc", technique="trace-rule monitor (grace-period rule on free notifications) + reference oracle under ASan, serialized scheduler with state-aware action selection; valgrind memcheck on the release code path",
                 ref="DESIGN.md 3/C05",
                 text="Every free of a retired block is checked against the set of threads registered at request time that have not been through quiescent/pause/exit since; harness objects carry canaries and are dereferenced by reference holders.",
                 note="Boundaries of the rule are taken on the permissive side (call/return stamps); schedules beyond the directed sweeps are sampled."),
@@ -57,11 +57,11 @@ DESC = {
                 ref="DESIGN.md 3/C11",
                 text="Encodings of adjacent values of each ordered domain are compared with unodb::detail::compare and memcmp: all 8/16-bit values, all 2^32 values of int32/uint32/float in the thorough tier (stride sample + boundary windows in quick), structured and random 64-bit/double, texts over a small alphabet and around maxlen, random tuples.",
                 note="64-bit types and double are sampled (boundary windows + random); oracle for floats is an explicit IEEE case analysis using libm nextafter for enumeration."),
-    "C12": dict(engine="codec", technique="round-trip monitor decode(encode(v)) over exhaustive/structured domains; fresh vs reset vs grown encoder byte comparison under ASan",
+    "C12": dict(engine="codec", technique="round-trip monitor decode(encode(v)) over exhaustive/structured domains; fresh vs reset vs grown encoder byte comparison under ASan and valgrind memcheck",
                 ref="DESIGN.md 3/C12",
                 text="Every value of the 8/16-bit types, all 2^32 patterns of int32/uint32/float in the thorough tier, structured/random 64-bit and double values must decode bit for bit; encoders reused after reset or grown past the inline buffer must produce identical bytes.",
                 note="64-bit domains sampled; text is not decoded (no decoder exists)."),
-    "C13": dict(engine="mutex_lin", technique="free-running threads with history recording + per-key linearizability checker, lock-handle monitor via interposed pthread_mutex calls, TSan",
+    "C13": dict(engine="mutex_lin", technique="free-running threads with history recording + per-key linearizability checker, lock-handle monitor via interposed pthread_mutex calls, TSan, valgrind memcheck",
                 ref="DESIGN.md 3/C13",
                 text="2-8 plain threads hammer mutex_db on tiny key spaces in many short rounds; histories are checked per key, every get result's handle ownership is inspected, held values are re-read while writers try, and an interposed mutex monitor decides that no operation other than a hit returns holding the lock.",
                 note="OS schedules with perturbation only (which is what the property quantifies over); stamps from one atomic counter (x86 lock xadd)."),
@@ -73,7 +73,7 @@ DESC = {
                 ref="DESIGN.md 3/C15",
                 text="All pairs of texts over a 3-letter alphabet up to length 5 (6 thorough), texts around maxlen, tuples with a text in the middle and random mixed tuples are compared pairwise; encode_text runs on inputs ending at a PROT_NONE page; prefix-free sets are stored in a real db<key_view> and read back.",
                 note="Sampled beyond the small alphabet; index round trip inside the D4-free domain."),
-    "C16": dict(engine="cfgdiff", technique="differential execution: same seeded workload in up to 16 build configurations, result-trace and counter hashes compared, assertion aborts are violations",
+    "C16": dict(engine="cfgdiff", technique="differential execution: same seeded workload in up to 16 build configurations, result-trace and counter hashes compared, assertion aborts are violations; valgrind memcheck (uninitialised-value use) on two corner configurations",
                 ref="DESIGN.md 3/C16",
                 text="One driver is compiled for {AVX2,SSE4.1}x{stats,no stats}x{assertions,NDEBUG}x{PAUSE,EMPTY}; trace hashes must agree across all, counter hashes across the statistics builds, and every assertion-enabled build must exit cleanly, including OLC scans followed by removals.",
                 note="Only schedule-independent outputs are hashed; ARM/NEON and MSVC paths cannot be built here."),
